@@ -108,3 +108,7 @@ func SpecInterleave(w string, ev string, k int) string {
 //@   ensures windows: implies(cmdType == CmdLineWindows, a.evasionPatterns[evasionPattern] == ctx.rootContext.configuration.Patterns.AntiEvasion.Windows && a.evasionPatterns[suffixPattern] == ctx.rootContext.configuration.Patterns.AntiEvasionSuffix.Windows && a.evasionPatterns[suffixExpandedCommand] == ctx.rootContext.configuration.Patterns.AntiEvasionNoSpaceSuffix.Windows)
 
 var _ = utils.SpecHasPrefix
+
+//@ contract Context.RootContext
+//@   tags C05
+//@   opt inline yes
